@@ -66,7 +66,7 @@ theorem legacy_F11 : ∃ (c : Cap) (k v : Bytes) (size : Int) (e : Entry),
 
 /-! ### tie by translation: the source's own leaf logic (regenerated into SV/Generated/Funcs.lean on every run) IS the model's -/
 theorem source_eviction_test_is_the_models (c : Cap) :
-    c.shouldEvict = Gen.lruShouldEvict c.entries.length c.cap c.bytes c.maxBytes := GenProofs.lruShouldEvict_eq c
+    c.shouldEvict = Gen.lruShouldEvict (c_evictList_Len := c.entries.length) (c_size := c.cap) (c_currentCapacityInBytes := c.bytes) (c_maxCapacityInBytes := c.maxBytes) := GenProofs.lruShouldEvict_eq c
 
 /-! ### whole histories against an INDEPENDENT reference LRU (SV.LRU.RefSpec: recency list least→most recent; a write removes the
     key, appends it as most recent and trims least-recent entries while over the item / byte capacity and more than one
